@@ -9,6 +9,7 @@ fn usage() -> ! {
 
 fn main() {
     engine::install_panic_hook();
+    engine::install_crash_handler();
     let args: Vec<String> = std::env::args().collect();
     if args.len() < 2 {
         usage();
